@@ -156,8 +156,12 @@ Returns:
   - true if the fields are equal, false otherwise.
 */
 func (ego *object) isEqual(another any) bool {
-	obj, ok := another.(*object)
-	if !ok || ego.Ego().Count() != obj.Count() {
+	other, ok := another.(Object)
+	if !ok {
+		return false
+	}
+	obj := other.base()
+	if ego.Ego().Count() != obj.Count() {
 		return false
 	}
 	for k := range ego.val {
@@ -166,6 +170,10 @@ func (ego *object) isEqual(another any) bool {
 		}
 	}
 	return true
+}
+
+func (ego *object) base() *object {
+	return ego
 }
 
 func (ego *object) Init(ptr Object) {
